@@ -401,6 +401,16 @@ func (x *Exec) assumeLoaded(st *State, v *Term, T types.Type) {
 	case *types.Slice:
 		x.addFactRaw(x.tt.Lt(x.tt.UF("birth$", "Int", x.sArr(v)), st.clk))
 		if len(x.prog.Cons.ValidatorTypes) > 0 {
+			if pt, ok := T.Underlying().(*types.Slice).Elem().Underlying().(*types.Pointer); ok && x.isMutableTypeName(typeName(pt.Elem())) && !v.hasBound {
+				// heap typing: the pointers held by a slice found in the heap refer to objects that exist
+				en := "A$" + typeName(T.Underlying().(*types.Slice).Elem())
+				es := arraySort("Int", arraySort("Int", "Int"))
+				inner := x.tt.Select(x.heap(st, en, es), x.sArr(v))
+				k := x.tt.Bound("k", "Int")
+				el := x.tt.Select(inner, k)
+				x.addFactRaw(x.tt.Forall([]*Term{k}, x.tt.Implies(x.tt.And(x.tt.Le(x.tt.IntLit(0), k), x.tt.Lt(k, x.toMathInt(x.sLen(v)))),
+					x.tt.Or(x.tt.Eq(el, x.tt.IntLit(0)), x.tt.Lt(x.tt.UF("birth$", "Int", el), st.clk))), []*Term{el}))
+			}
 			x.arrayEmbedders()
 			if et := T.Underlying().(*types.Slice).Elem(); !x.arrEmbElem[typeName(et)] {
 				// no struct of the package embeds an array of this element type: the backing array is an allocation of its own
